@@ -370,9 +370,8 @@ def alloca_probes(fn, full):
     for p in alloca_probes_all(fn):
         # after alloca the stack pointer is symbolic and every temporary goes through the array theory:
         # the three heavy shapes need the thorough budget
-        if full or p.mode in ("pending", "vlasize"):
-            p.timeout_ms = 900000 if full else 120000
-            P.append(p)
+        p.timeout_ms = 900000 if full else 120000
+        P.append(p)
     return P
 
 
